@@ -141,6 +141,56 @@ fn inject(n: &mut Node, u: &mut Un, names: &mut Names, hidden: bool, vis: &mut V
     }
 }
 
+/// Command paths that look alike once joined or lower-cased: a sibling named `x-y` next to the
+/// command `x` that has a subcommand `y`, or a sibling that differs from `x` by case only. Every
+/// level still needs a section of its own.
+fn collide_names(level: &mut Level, u: &mut Un) {
+    if !u.chance(90) {
+        return;
+    }
+    fn top_cmds<'a>(n: &'a mut Node, out: &mut Vec<&'a mut CmdSpec>) {
+        match n {
+            Node::Cmd(c) => out.push(&mut **c),
+            Node::Named(_) | Node::Pos(_) | Node::Pure(_) | Node::Fail(_) | Node::Any(_) => {}
+            other => {
+                for c in other.children_mut() {
+                    top_cmds(c, out);
+                }
+            }
+        }
+    }
+    let by_case = u.bool();
+    let mut cmds = Vec::new();
+    top_cmds(&mut level.body, &mut cmds);
+    if cmds.len() < 2 {
+        return;
+    }
+    let taken: Vec<String> = cmds.iter().flat_map(|c| c.all_names()).collect();
+    // the command whose path is imitated, and the sibling that gets the new name
+    let (mut model, mut new_name) = (None, String::new());
+    for (i, c) in cmds.iter().enumerate() {
+        if by_case {
+            let up = c.name.to_uppercase();
+            if up != c.name && !taken.contains(&up) {
+                model = Some(i);
+                new_name = up;
+                break;
+            }
+        } else if let Some(sub) = c.level.body.commands(false).first() {
+            let joined = format!("{}-{}", c.name, sub.name);
+            if !taken.contains(&joined) {
+                model = Some(i);
+                new_name = joined;
+                break;
+            }
+        }
+    }
+    if let Some(i) = model {
+        let j = if i == 0 { 1 } else { 0 };
+        cmds[j].name = new_name;
+    }
+}
+
 pub fn decode(bytes: &[u8]) -> Case {
     let mut u = Un::new(bytes);
     let mut names = Names::new();
@@ -155,6 +205,7 @@ pub fn decode(bytes: &[u8]) -> Case {
         }
     }
     inject(&mut level.body, &mut u, &mut names, false, &mut visible, &mut hidden);
+    collide_names(&mut level, &mut u);
     // texts attached to a group whose items are all hidden are not shown either: only demand
     // the ones that the console help of some level shows (checked by the caller)
     let n_inject = visible.len() + hidden.len();
